@@ -25,18 +25,35 @@ type verifC15In struct {
 	opt                     map[uint8][]byte // the non-empty values among options 82/61/54/55
 }
 
+// Forms of the input packet that the sweeps keep fixed and VerifC15Forms varies: length of the
+// hardware address, 4-byte or 16-byte (IPv4-mapped) addresses.
+
+func verifMapped(a []byte) net.IP {
+	return net.IP{0, 0, 0, 0, 0, 0, 0, 0, 0, 0, 0xff, 0xff, a[0], a[1], a[2], a[3]}
+}
+
+// VerifC15Forms: the four packet-derived builders (kind 0..3) on an input whose hardware address
+// has hwlen bytes (0..16) and whose addresses are 4-byte (ip16 = 0) or IPv4-mapped 16-byte values.
+func VerifC15Forms(kind, hwlen, ip16, mod int) {
+	verifC15Run(kind, verifC15InputForm(hwlen, ip16 != 0, 3, 2, 4, 2, -1), nil, nil, mod, -1)
+}
+
 // verifC15Input: s82, s61, s54, s55 give the state of that option: -1 absent, 0 present with a
 // nil value (the decoder's representation of a zero-length option), n > 0 present with n
 // symbolic bytes.  extra >= 0 adds one more option with a symbolic code (1..254, none of the
 // four) and extra symbolic bytes.
 func verifC15Input(s82, s61, s54, s55, extra int) *verifC15In {
+	return verifC15InputForm(6, false, s82, s61, s54, s55, extra)
+}
+
+func verifC15InputForm(verifC15HWLen int, verifC15IP16 bool, s82, s61, s54, s55, extra int) *verifC15In {
 	in := &verifC15In{opt: map[uint8][]byte{}}
 	in.xid = verifBytes("xid", 4)
 	in.ci = verifBytes("ciaddr", 4)
 	in.yi = verifBytes("yiaddr", 4)
 	in.si = verifBytes("siaddr", 4)
 	in.gi = verifBytes("giaddr", 4)
-	in.hw = verifBytes("chaddr", 6)
+	in.hw = verifBytes("chaddr", verifC15HWLen)
 	p := &DHCPv4{
 		OpCode:         OpcodeType(verifU8("op")),
 		HWType:         iana.HWType(verifU16("htype")),
@@ -53,6 +70,13 @@ func verifC15Input(s82, s61, s54, s55, extra int) *verifC15In {
 		Options:        Options{},
 	}
 	copy(p.TransactionID[:], in.xid)
+	if verifC15IP16 {
+		// the four addresses in their 16-byte IPv4-mapped form
+		p.ClientIPAddr = verifMapped(in.ci)
+		p.YourIPAddr = verifMapped(in.yi)
+		p.ServerIPAddr = verifMapped(in.si)
+		p.GatewayIPAddr = verifMapped(in.gi)
+	}
 	codes := []uint8{82, 61, 54, 55}
 	for i, s := range []int{s82, s61, s54, s55} {
 		switch {
